@@ -1,10 +1,12 @@
 mod ctrl;
 mod driver;
+mod e1;
 mod e2;
 mod e3;
 mod model;
 mod props;
 mod rng;
+mod simdisk;
 mod world;
 
 use std::collections::BTreeMap;
@@ -58,7 +60,7 @@ fn main() {
             let plan: Value = serde_json::from_str(&std::fs::read_to_string(&args[3]).expect("read plan")).expect("parse plan");
             let r = props::exec_plan(&args[2], &plan, "exec");
             let out = match (&r.violation, &r.harness) {
-                (Some(v), _) => json!({"result": "violation", "class": v.class, "text": v.text, "trace": r.trace}),
+                (Some(v), _) => json!({"result": "violation", "class": v.class, "text": v.text, "trace": r.trace, "plan_patch": r.plan_patch}),
                 (None, Some(h)) => json!({"result": "harness", "text": h}),
                 _ => json!({"result": "ok", "trace": r.trace}),
             };
@@ -145,6 +147,11 @@ fn worker(prop: &str, tier: &str, seed: u64, start: u64, stride: u64, count: u64
                 let mut plan = plan.clone();
                 if !r.choices.is_empty() {
                     plan["choices"] = json!(r.choices);
+                }
+                if let Some(Value::Object(m)) = &r.plan_patch {
+                    for (k, v) in m {
+                        plan[k.as_str()] = v.clone();
+                    }
                 }
                 violations.push(json!({"index": idx, "seed": run_seed, "class": v.class, "text": v.text, "plan": plan}));
             }
